@@ -188,13 +188,15 @@ def r3_bounds(repo):
         prov = Prov(f.node, passthrough={"substitute_type", "reduce", "filter", "list", "get_bound_rec", "box_type", "items", "values"})
         srcs = prov.sources(n.value, at=n)
         texts = [src(s) for s in srcs if isinstance(s, ast.AST)]
-        fresh = [t for t in texts if "select_type(" in t or "choose_type(" in t or "instantiate_type_constructor(" in t]
+        fresh = [t for t in texts if "select_type(" in t or "choose_type(" in t or "instantiate_type_constructor(" in t
+                 or "get_any_type(" in t]
         existing = [t for t in texts if t.endswith(".bound") or "get_bound_rec(" in t or "get_type_variables(" in t
                     or ".bound," in t]
         none = isinstance(n.value, ast.Constant) and n.value.value is None
         ok = not fresh and (bool(existing) or none)
         obs.append(Ob("C17-R3", "bound-store@%s:%s" % (f.qualname, " ".join(src(n).split())[:60]), _w(f, n), ok,
-                      "a store to .bound must copy / substitute a bound that already exists (or clear it): derives from %s"
+                      "a store to .bound must copy / substitute a bound that already exists (or clear it) - also the top type "
+                      "is a bound: derives from %s"
                       % texts[:6]))
     if len(stores) < 5 or len(ctor) < 1:
         raise AnalysisError("bound sites: %d stores, %d constructions" % (len(stores), len(ctor)), rule="C17-R3")
